@@ -107,9 +107,12 @@ class Exact(Fraction):
         return NotImplemented if f is None else Fraction.__ge__(self, f)
 
     def __repr__(self):
-        if self.denominator == 1:
-            return "E(%d)" % self.numerator
-        return "E(%d/%d)" % (self.numerator, self.denominator)
+        n, d = self.numerator, self.denominator
+        if n.bit_length() > 200 or d.bit_length() > 200:   # linear-time rendering for huge rationals
+            return "E(%s0x%x/0x%x)" % ("-" if n < 0 else "", abs(n), d)
+        if d == 1:
+            return "E(%d)" % n
+        return "E(%d/%d)" % (n, d)
 
     __str__ = __repr__
 
@@ -130,7 +133,7 @@ def is_exact(v):
 def to_json(v):
     """JSON-able rendering of a number (Exact -> "n/d")."""
     if isinstance(v, Exact):
-        return "%d/%d" % (v.numerator, v.denominator)
+        return repr(v)
     if isinstance(v, (np.floating,)):
         return float(v)
     if isinstance(v, (np.integer,)):
